@@ -7,6 +7,9 @@
   the harness evaluates it with the real ripasso function.  What the filter computes is C12/C13.
 -/
 import BB.Proofs.ForgeSeq
+import BB.Proofs.G4Seq
+import BB.Proofs.G4Prep
+import BB.Proofs.G4Example
 import Mathlib.Tactic.FieldSimp
 import Mathlib.Algebra.Field.Rat
 import BB.Model.Sequence
@@ -144,5 +147,237 @@ theorem forge_filter_position (s : Sequence) (d t : Bool) (Fon Foff : List (ℕ 
   obtain ⟨a1, a2, _, a4⟩ := f1 k hk hc
   obtain ⟨b1, b2, b3, _⟩ := f2 k hk hf
   exact ⟨a1, b1, a2, b2, b3 rfl, a4 rfl⟩
+
+/-- **`forge_filter_position` with the delayed element exposed**: the arrays both results hold at
+    an element position are `getArrays` of the element *after the delay step* (`delayedEl`: the
+    stored element with `_applyDelays` applied when delays are on) — so the declared filter is
+    attached to that element's complete delayed waveform, channel by channel -/
+theorem forge_filter_position_delayed (s : Sequence) (d t : Bool) (Fon Foff : List (ℕ × ForgedPos))
+    (hon : s.forge d true t = .ok Fon) (hoff : s.forge d false t = .ok Foff)
+    (i : ℕ) (h1 : i < Fon.length) (h2 : i < Foff.length) (e : Element)
+    (he : Dict.get? s.data ((i + 1 : ℕ) : ℤ) = some (.el e)) :
+    ∃ (e' : Element) (arr : Dict Chan Element.ChOut) (con coff : Dict Chan ChOutF) (sq : SeqSet),
+      Sequence.delayedEl s d e = .ok e' ∧ e'.getArrays t = .ok arr ∧
+      Fon[i] = (i + 1, { sequencing := sq, isSub := false, content := [(1, con, none)] }) ∧
+      Foff[i] = (i + 1, { sequencing := sq, isSub := false, content := [(1, coff, none)] }) ∧
+      con.length = arr.length ∧ coff.length = arr.length ∧
+      ∀ k (hk : k < arr.length) (hc : k < con.length) (hf : k < coff.length),
+        con[k].1 = arr[k].1 ∧ coff[k].1 = arr[k].1 ∧ con[k].2.out = arr[k].2 ∧ coff[k].2.out = arr[k].2 ∧
+        coff[k].2.filt = none ∧ s.filterOf arr[k].1 = .ok con[k].2.filt := by
+  obtain ⟨en1, hen1, hp1⟩ := (Sequence.forge_pos s d true t Fon hon).2 i h1
+  obtain ⟨en2, hen2, hp2⟩ := (Sequence.forge_pos s d false t Foff hoff).2 i h2
+  rw [he] at hen1 hen2
+  cases hen1; cases hen2
+  obtain ⟨e1, arr1, c1, sq1, hd1, ha1, hw1, hs1, hF1⟩ := Sequence.forgePos_element s d true t (i + 1) e _ hp1
+  obtain ⟨e2, arr2, c2, sq2, hd2, ha2, hw2, hs2, hF2⟩ := Sequence.forgePos_element s d false t (i + 1) e _ hp2
+  have hd1' := hd1
+  rw [hd1] at hd2
+  cases hd2
+  have ha1' := ha1
+  rw [ha1] at ha2
+  cases ha2
+  rw [hs1] at hs2
+  cases hs2
+  obtain ⟨l1, f1⟩ := filters_frame s true arr1 c1 hw1
+  obtain ⟨l2, f2⟩ := filters_frame s false arr1 c2 hw2
+  refine ⟨e1, arr1, c1, c2, sq1, hd1', ha1', hF1, hF2, l1, l2, fun k hk hc hf => ?_⟩
+  obtain ⟨a1, a2, _, a4⟩ := f1 k hk hc
+  obtain ⟨b1, b2, b3, _⟩ := f2 k hk hf
+  exact ⟨a1, b1, a2, b2, b3 rfl, a4 rfl⟩
+
+/-- **inside subsequences**: at a subsequence position, filters on vs. off (same delay and time
+    options), content entry `j` of both results holds the arrays of the subsequence's element
+    `j+1` after the delay step, in the same channel order, with that position's own sequencing
+    entry; markers, flags, time axis and waveform blocks are identical, and the results differ
+    only in the filter annotation: none with filters off; with filters on, every channel carries
+    the call of its own declared setting (the *parent's* settings and sample rate) -/
+theorem forge_filter_subsequence_position (s : Sequence) (d t : Bool) (Fon Foff : List (ℕ × ForgedPos))
+    (hon : s.forge d true t = .ok Fon) (hoff : s.forge d false t = .ok Foff)
+    (i : ℕ) (h1 : i < Fon.length) (h2 : i < Foff.length) (sub : SubSeq)
+    (he : Dict.get? s.data ((i + 1 : ℕ) : ℤ) = some (.sub sub)) :
+    (Fon[i]).2.content.length = sub.data.length ∧ (Foff[i]).2.content.length = sub.data.length ∧
+    ∀ j (hj1 : j < (Fon[i]).2.content.length) (hj2 : j < (Foff[i]).2.content.length),
+      ∃ (e e' : Element) (arr : Dict Chan Element.ChOut) (con coff : Dict Chan ChOutF) (q2 : SeqSet),
+        Dict.get? sub.data ((j + 1 : ℕ) : ℤ) = some e ∧ Sequence.delayedEl s d e = .ok e' ∧ e'.getArrays t = .ok arr ∧
+        (Fon[i]).2.content[j] = (j + 1, con, some q2) ∧ (Foff[i]).2.content[j] = (j + 1, coff, some q2) ∧
+        con.length = arr.length ∧ coff.length = arr.length ∧
+        ∀ k (hk : k < arr.length) (hc : k < con.length) (hf : k < coff.length),
+          con[k].1 = arr[k].1 ∧ coff[k].1 = arr[k].1 ∧ con[k].2.out = arr[k].2 ∧ coff[k].2.out = arr[k].2 ∧
+          coff[k].2.filt = none ∧ s.filterOf arr[k].1 = .ok con[k].2.filt := by
+  obtain ⟨en1, hen1, hp1⟩ := (Sequence.forge_pos s d true t Fon hon).2 i h1
+  obtain ⟨en2, hen2, hp2⟩ := (Sequence.forge_pos s d false t Foff hoff).2 i h2
+  rw [he] at hen1 hen2
+  cases hen1; cases hen2
+  obtain ⟨_, _, _, _, _, hl1, hall1⟩ := Sequence.forgePos_sub s d true t (i + 1) sub _ hp1
+  obtain ⟨_, _, _, _, _, hl2, hall2⟩ := Sequence.forgePos_sub s d false t (i + 1) sub _ hp2
+  refine ⟨hl1, hl2, fun j hj1 hj2 => ?_⟩
+  obtain ⟨e1, e1', arr1, c1, q1, hg1, hd1, ha1, hw1, hq1, hc1⟩ := hall1 j hj1
+  obtain ⟨e2, e2', arr2, c2, q2, hg2, hd2, ha2, hw2, hq2, hc2⟩ := hall2 j hj2
+  rw [hg1] at hg2
+  cases hg2
+  have hd1' := hd1
+  rw [hd1] at hd2
+  cases hd2
+  have ha1' := ha1
+  rw [ha1] at ha2
+  cases ha2
+  rw [hq1] at hq2
+  cases hq2
+  obtain ⟨l1, f1⟩ := filters_frame s true arr1 c1 hw1
+  obtain ⟨l2, f2⟩ := filters_frame s false arr1 c2 hw2
+  refine ⟨e1, e1', arr1, c1, c2, q1, hg1, hd1', ha1', hc1, hc2, l1, l2, fun k hk hc hf => ?_⟩
+  obtain ⟨a1, a2, _, a4⟩ := f1 k hk hc
+  obtain ⟨b1, b2, b3, _⟩ := f2 k hk hf
+  exact ⟨a1, b1, a2, b2, b3 rfl, a4 rfl⟩
+
+/-! ### the AWG output paths -/
+
+/-- **the duplicate filter loop of `_prepareForOutputting`** (the common front end of
+    `outputForAWGFile`, `outputForSEQXFile` and `outputForSEQXFileWithFlags`): at every prepared
+    position, every channel carries exactly the filter call declared for that channel — kind,
+    order, f_cut or 1/tau, the sequence's sample rate (`filterOf`) —, and no annotation when no
+    compensation is declared for it -/
+theorem prepare_filter_spec (s : Sequence) (P : List (Dict Chan ChOutF)) (hP : s.prepareForOutputting = .ok P)
+    (p : ℕ) (hp : p < P.length) (ch : Chan) (c : ChOutF) (hc : (ch, c) ∈ P[p]) :
+    s.filterOf ch = .ok c.filt ∧
+    (Dict.get? s.awgspecs (keyOf ch "filtercompensation") = none → c.filt = none) := by
+  have h := Sequence.prepare_filters s P hP p hp (ch, c) hc
+  refine ⟨h, fun hn => ?_⟩
+  rw [no_spec_no_filter s ch hn] at h
+  exact (Except.ok.inj h).symm
+
+/-! ### tau ≡ f_cut at the level of the setter -/
+
+/-- helper (C11, tau ≡ f_cut): `key in dict` is `dict.get(key) is not None` on the model dictionaries -/
+theorem has_eq_isSome {κ α : Type} [DecidableEq κ] (d : Dict κ α) (k : κ) : Dict.has d k = (Dict.get? d k).isSome := by
+  unfold Dict.has Dict.get?
+  induction d with
+  | nil => rfl
+  | cons x xs ih =>
+    simp only [List.any_cons, List.find?_cons]
+    by_cases hk : x.1 = k
+    · simp [hk]
+    · simp only [hk, decide_false, Bool.false_or]
+      exact ih
+
+/-- **`setChannelFilterCompensation(ch, kind, order, tau=1/f_cut)` ≡ `(…, f_cut=f_cut)`**: after
+    either call, `forge` — for every option combination — returns the same result (the same
+    filter call is attached to the same channels at every position and inside subsequences;
+    everything else does not look at the setting) -/
+theorem setFilter_tau_equiv_fcut_forge (s : Sequence) (ch : Chan) (kind : String) (order : ℤ) (isInt : Bool)
+    (fc : ℚ) (hfc : fc ≠ 0) (d f t : Bool) :
+    Sequence.forge (s.setChannelFilterCompensation ch kind order isInt (.num fc) .none).st d f t =
+      Sequence.forge (s.setChannelFilterCompensation ch kind order isInt .none (.num (1 / fc))).st d f t := by
+  unfold SeqCore.setChannelFilterCompensation
+  by_cases h1 : Gen.filterKinds.contains kind = true
+  · by_cases h2 : isInt = true
+    · simp only [h1, h2, not_true_eq_false, if_false, ne_eq, and_false, false_and, reduceCtorEq,
+        not_false_eq_true, SeqCore.setSpec]
+      refine Sequence.g4_forge_congr _ _ d f t rfl rfl ?_ ?_ ?_
+      · simp only [has_eq_isSome]
+        rw [Dict.get?_upsert_other _ _ _ _ (Sequence.g4_keyOf_ne_SR ch _).symm,
+          Dict.get?_upsert_other _ _ _ _ (Sequence.g4_keyOf_ne_SR ch _).symm]
+      · intro ch'
+        simp only [SeqCore.delayOf]
+        rw [Dict.get?_upsert_other _ _ _ _ (Sequence.g4_keyOf_delay_ne_filter ch ch'),
+          Dict.get?_upsert_other _ _ _ _ (Sequence.g4_keyOf_delay_ne_filter ch ch')]
+      · intro ch'
+        have hsr : ∀ v, SeqCore.getSR ({ s with awgspecs := Dict.upsert s.awgspecs (keyOf ch "filtercompensation") v } : Sequence)
+            = s.getSR := by
+          intro v
+          simp only [SeqCore.getSR]
+          rw [Dict.get?_upsert_other _ _ _ _ (Sequence.g4_keyOf_ne_SR ch _).symm]
+        by_cases hk : keyOf ch' "filtercompensation" = keyOf ch "filtercompensation"
+        · apply tau_equiv_fcut _ _ ch' kind order fc hfc
+          · rw [hsr, hsr]
+          · rw [hk]; exact Dict.get?_upsert_self _ _ _
+          · rw [hk]; exact Dict.get?_upsert_self _ _ _
+        · simp only [SeqCore.filterOf]
+          rw [Dict.get?_upsert_other _ _ _ _ hk, Dict.get?_upsert_other _ _ _ _ hk]
+          simp only [hsr]
+    · simp [h2]
+  · have h1' : kind ∉ Gen.filterKinds := by simpa using h1
+    simp [h1']
+
+/-- **the same for the AWG output paths**: after `setChannelFilterCompensation(…, tau=1/f_cut)` and
+    after `(…, f_cut=f_cut)`, `_prepareForOutputting` — the front end of `outputForAWGFile` and the
+    SEQX output methods, which holds the duplicate filter loop — returns the same result -/
+theorem setFilter_tau_equiv_fcut_prepare (s : Sequence) (ch : Chan) (kind : String) (order : ℤ) (isInt : Bool)
+    (fc : ℚ) (hfc : fc ≠ 0) :
+    Sequence.prepareForOutputting (s.setChannelFilterCompensation ch kind order isInt (.num fc) .none).st =
+      Sequence.prepareForOutputting (s.setChannelFilterCompensation ch kind order isInt .none (.num (1 / fc))).st := by
+  unfold SeqCore.setChannelFilterCompensation
+  by_cases h1 : Gen.filterKinds.contains kind = true
+  · by_cases h2 : isInt = true
+    · simp only [h1, h2, not_true_eq_false, if_false, ne_eq, and_false, false_and, reduceCtorEq,
+        not_false_eq_true, SeqCore.setSpec]
+      refine Sequence.g4_prepare_congr _ _ rfl rfl ?_ ?_ ?_ ?_
+      · simp only [has_eq_isSome]
+        rw [Dict.get?_upsert_other _ _ _ _ (Sequence.g4_keyOf_ne_SR ch _).symm,
+          Dict.get?_upsert_other _ _ _ _ (Sequence.g4_keyOf_ne_SR ch _).symm]
+      · intro ch'
+        simp only [has_eq_isSome]
+        rw [Dict.get?_upsert_other _ _ _ _ (Sequence.g4_keyOf_amplitude_ne_filter ch ch'),
+          Dict.get?_upsert_other _ _ _ _ (Sequence.g4_keyOf_amplitude_ne_filter ch ch')]
+      · intro ch'
+        simp only [SeqCore.delayOf]
+        rw [Dict.get?_upsert_other _ _ _ _ (Sequence.g4_keyOf_delay_ne_filter ch ch'),
+          Dict.get?_upsert_other _ _ _ _ (Sequence.g4_keyOf_delay_ne_filter ch ch')]
+      · intro ch'
+        have hsr : ∀ v, SeqCore.getSR ({ s with awgspecs := Dict.upsert s.awgspecs (keyOf ch "filtercompensation") v } : Sequence)
+            = s.getSR := by
+          intro v
+          simp only [SeqCore.getSR]
+          rw [Dict.get?_upsert_other _ _ _ _ (Sequence.g4_keyOf_ne_SR ch _).symm]
+        by_cases hk : keyOf ch' "filtercompensation" = keyOf ch "filtercompensation"
+        · apply tau_equiv_fcut _ _ ch' kind order fc hfc
+          · rw [hsr, hsr]
+          · rw [hk]; exact Dict.get?_upsert_self _ _ _
+          · rw [hk]; exact Dict.get?_upsert_self _ _ _
+        · simp only [SeqCore.filterOf]
+          rw [Dict.get?_upsert_other _ _ _ _ hk, Dict.get?_upsert_other _ _ _ _ hk]
+          simp only [hsr]
+    · simp [h2]
+  · have h1' : kind ∉ Gen.filterKinds := by simpa using h1
+    simp [h1']
+
+/-- the hypotheses are satisfiable and the setting is observable: a valid call stores the
+    specification, an invalid one (both f_cut and tau) is rejected -/
+example : ((({ awgspecs := [("SR", .val (.num 10))] } : Sequence).setChannelFilterCompensation (.int 1) "HP" 1 true
+      (.num 2) .none).err = none) ∧
+    ((({ awgspecs := [("SR", .val (.num 10))] } : Sequence).setChannelFilterCompensation (.int 1) "HP" 1 true
+      (.num 2) (.num (1/2))).err = some .specincons) := by
+  constructor <;> decide +kernel
+
+/-- both settings attach the same call: HP, order 1, cut-off 2, the sequence's rate 10 -/
+example :
+    ((({ awgspecs := [("SR", .val (.num 10))] } : Sequence).setChannelFilterCompensation (.int 1) "HP" 1 true
+      .none (.num (1/2))).st.filterOf (.int 1)).toOption = some (some ⟨"HP", 1, 2, .num 10⟩) := by
+  decide +kernel
+
+/-! ### non-vacuity of the position theorems -/
+
+open BB.G4Ex in
+/-- the hypotheses of `forge_filter_position_delayed` (position 1, an element) and
+    `forge_filter_subsequence_position` (position 2, a subsequence) hold for the example: both
+    forges succeed, with delays on -/
+example : (exSeq.forge true true false).toOption.isSome = true ∧ (exSeq.forge true false false).toOption.isSome = true ∧
+    Dict.get? exSeq.data ((0 + 1 : ℕ) : ℤ) = some (.el exEl) ∧ Dict.get? exSeq.data ((1 + 1 : ℕ) : ℤ) = some (.sub exSub) := by
+  refine ⟨by decide +kernel, by decide +kernel, rfl, rfl⟩
+
+open BB.G4Ex in
+/-- filters on: inside the subsequence, channel "A" carries its HP call, channel 1 nothing -/
+example : (exSeq.forge true true false).toOption.map
+      (fun out => (out.drop 1).flatMap (fun p => p.2.content.flatMap (fun c => c.2.1.map (fun x => (x.1, x.2.filt))))) =
+    some [(.int 1, none), (.str "A", some ⟨"HP", 1, 1, .num 10⟩), (.int 1, none), (.str "A", some ⟨"HP", 1, 1, .num 10⟩)] := by
+  decide +kernel
+
+open BB.G4Ex in
+/-- `prepare_filter_spec` is not vacuous: `_prepareForOutputting` succeeds on the flat example and
+    annotates channel "A" (listed first at position 2) at both positions -/
+example : (exFlat.prepareForOutputting).toOption.map (fun P => P.map (fun d => d.map (fun x => (x.1, x.2.filt)))) =
+    some [[(.int 1, none), (.str "A", some ⟨"HP", 1, 1, .num 10⟩)],
+          [(.str "A", some ⟨"HP", 1, 1, .num 10⟩), (.int 1, none)]] := by
+  decide +kernel
 
 end BB.C11
